@@ -58,8 +58,12 @@ func runGenEngines(c *Check, o genOpts) map[*ssa.Function]bool {
 	if o.deref {
 		runDeref(c, "UNCHECKED-LOOKUP", o.entries, res, nil)
 	}
-	c.Counts["copied_element_updates"] = lostUpdates(c, "LOST-UPDATE", in)
-	c.Counts["memo_tables"] = memoKeys(c, "MEMO-KEY", in)
+	nLost := lostUpdates(c, "LOST-UPDATE", in)
+	c.Counts["copied_element_updates"] = nLost
+	c.Okf("LOST-UPDATE", "scan", "-", "%d reachable repository functions scanned for field writes on copies of container elements: %d found and evaluated", len(in), nLost)
+	nMemo := memoKeys(c, "MEMO-KEY", in)
+	c.Counts["memo_tables"] = nMemo
+	c.Okf("MEMO-KEY", "scan", "-", "%d reachable repository functions scanned for look-up-or-compute tables: %d found and evaluated", len(in), nMemo)
 	if o.order {
 		e := newOrderEngine(p)
 		runOrder(c, "MAP-ORDER", e, func(f *ssa.Function) bool { return in[f] })
